@@ -467,4 +467,251 @@ theorem writeAll_readAll (hH : HuffmanRoundTrip) : ∀ (cs : List Chunk) (w w' :
         simp
     | (w1, .panic s), h => simp at h
 
+/-! ### file header: written, then read back -/
+
+theorem magic_length : magic.length = 7 := by decide
+theorem shaExtension_length : shaExtension.length = 16 := by decide
+theorem kind_magic_length (k : Kind) : k.magic.length = 8 := by cases k <;> decide
+theorem capped_length (n : Nat) (s : Bytes) (h : s.length < n) : (capped n s).length = n := by
+  simp [capped]; omega
+
+theorem cstr_capped (n : Nat) (s : Bytes) (h : s.length < n) (hz : ∀ b ∈ s, b ≠ 0) : cstr (capped n s) = s := by
+  unfold cstr capped
+  have hpos : 0 < n - s.length := by omega
+  obtain ⟨k, hk⟩ : ∃ k, n - s.length = k + 1 := ⟨n - s.length - 1, by omega⟩
+  rw [hk, List.replicate_succ]
+  rw [List.takeWhile_append_of_pos (by simpa using hz)]
+  simp
+
+theorem weirdPadding_capped (n : Nat) (s : Bytes) (hz : ∀ b ∈ s, b ≠ 0) : weirdPadding (capped n s) = false := by
+  unfold weirdPadding capped
+  rw [List.dropWhile_append_of_pos (by simpa using hz)]
+  induction (n - s.length) with
+  | zero => simp
+  | succ k ih => simp [List.replicate_succ]
+
+
+/-- header arguments inside the documented format: NUL-free strings (they are NUL-terminated in
+the file), a 32-byte digest, `u32` checksum, `i32` length -/
+def HeaderArgs.wf (a : HeaderArgs) : Prop :=
+  (∀ b ∈ a.netVersion, b ≠ 0) ∧ (∀ b ∈ a.mapName, b ≠ 0) ∧ (∀ b ∈ a.timestamp, b ≠ 0) ∧
+  (∀ s, a.sha = some s → s.length = 32) ∧ a.crc < 4294967296 ∧ inI32 a.length
+
+/-- what the reader's header accessors are expected to return for a file written with `a` -/
+def HeaderArgs.info (a : HeaderArgs) : HeaderInfo :=
+  { version := if a.sha.isSome then writerVersionDdnet else writerVersion
+    netVersion := a.netVersion, mapName := a.mapName, mapSize := a.map.length, crc := a.crc,
+    kind := a.kind, length := a.length, timestamp := a.timestamp, markers := [], sha := a.sha,
+    map := a.map }
+
+/-- a concrete instance of `HeaderArgs.wf` (used for the non-vacuity examples) -/
+def exampleArgs : HeaderArgs :=
+  { netVersion := [48, 46, 54], mapName := [100, 109, 49], sha := none, crc := 7, kind := .client,
+    length := 0, timestamp := [50], map := [1, 2, 3] }
+
+theorem readI32s_zero : readI32s 64 zeroMarkerBytes = noMarkers := by decide
+
+theorem toI32_small (n : Nat) (h : n < 2147483648) : toI32 n = n := by
+  unfold toI32; omega
+
+theorem readFixed_encode (a : HeaderArgs) (hwf : a.wf) (rest : Bytes)
+    (hl1 : a.netVersion.length < 64) (hl2 : a.mapName.length < 64) (hl3 : a.timestamp.length < 20)
+    (hl4 : a.map.length < 2147483648) (hl5 : a.length ≥ 0) (v : Version) :
+    readFixed (magic ++ ([UInt8.ofNat v.num] ++ (capped 64 a.netVersion ++ (capped 64 a.mapName
+      ++ (be32 a.map.length ++ (be32 a.crc ++ (a.kind.magic ++ (be32 (toU32 a.length)
+      ++ (capped 20 a.timestamp ++ rest))))))))) =
+    some ({ version := v, netVersion := capped 64 a.netVersion, mapName := capped 64 a.mapName,
+            mapSize := a.map.length, crc := a.crc, kind := a.kind, length := a.length,
+            timestamp := capped 20 a.timestamp }, rest) := by
+  obtain ⟨hz1, hz2, hz3, hsha, hcrc, hlen⟩ := hwf
+  have e1 : toI32 (beVal (be32 a.map.length)) = (a.map.length : Int) := by
+    rw [beVal_be32 _ (by omega), toI32_small _ hl4]
+  have e2 : beVal (be32 a.crc) = a.crc := beVal_be32 _ hcrc
+  have e3 : toI32 (beVal (be32 (toU32 a.length))) = a.length := by
+    rw [beVal_be32 _ (toU32_lt _), toI32_toU32 _ hlen]
+  have hk : readKind a.kind.magic = some a.kind := by cases a.kind <;> decide
+  have hneg : ¬ ((a.map.length : Int) < 0) := by omega
+  have hneg2 : ¬ (a.length < 0) := by omega
+  have hv : Version.ofByte (beVal [UInt8.ofNat v.num]) = some v := by cases v <;> decide
+  unfold readFixed
+  rw [takeN_append magic _ 7 magic_length]
+  simp only [ne_eq, not_true_eq_false, if_false]
+  rw [takeN_append [UInt8.ofNat v.num] _ 1 rfl]
+  simp only [hv]
+  rw [takeN_append (capped 64 a.netVersion) _ 64 (capped_length _ _ hl1)]
+  simp only []
+  rw [takeN_append (capped 64 a.mapName) _ 64 (capped_length _ _ hl2)]
+  simp only []
+  rw [takeN_append (be32 a.map.length) _ 4 (be32_length _)]
+  simp only [e1, hneg, if_false]
+  rw [takeN_append (be32 a.crc) _ 4 (be32_length _)]
+  simp only []
+  rw [takeN_append a.kind.magic _ 8 (kind_magic_length _)]
+  simp only [hk]
+  rw [takeN_append (be32 (toU32 a.length)) _ 4 (be32_length _)]
+  simp only [e3, hneg2, if_false]
+  rw [takeN_append (capped 20 a.timestamp) _ 20 (capped_length _ _ hl3)]
+  simp only [e2, Int.toNat_natCast]
+
+
+theorem readMarkers_zero (v : Version) (hv : v.num ≥ 5) (rest : Bytes) :
+    readMarkers v (be32 0 ++ (zeroMarkerBytes ++ rest)) = some (0, noMarkers, rest) := by
+  have hv4 : v.num ≥ 4 := by omega
+  have e4 : toI32 (beVal (be32 0)) = 0 := by decide
+  unfold readMarkers
+  simp only [hv4, if_true]
+  rw [takeN_append (be32 0) _ 4 (be32_length _)]
+  simp only [e4]
+  rw [takeN_append zeroMarkerBytes _ 256 (List.length_replicate ..)]
+  simp [readI32s_zero]
+
+theorem markerWarnings_zero : markerWarnings 0 noMarkers = [] := by decide
+theorem noMarkers_take : noMarkers.take 0 = [] := rfl
+
+theorem readHeader_encode (a : HeaderArgs) (hwf : a.wf) (hdr rest : Bytes)
+    (henc : encodeHeader a = some hdr) :
+    readHeader (hdr ++ rest) = some (a.info, rest, []) := by
+  have hwf' := hwf
+  obtain ⟨hz1, hz2, hz3, hsha, hcrc, hlen⟩ := hwf
+  unfold encodeHeader at henc
+  by_cases hc : a.netVersion.length < 64 ∧ a.mapName.length < 64 ∧ a.timestamp.length < 20
+      ∧ a.map.length < 2147483648 ∧ a.length ≥ 0
+  · simp only [hc, and_self, not_true_eq_false, if_false, Option.some.injEq] at henc
+    obtain ⟨hl1, hl2, hl3, hl4, hl5⟩ := hc
+    subst henc
+    have hw : headerWarnings (capped 64 a.netVersion) (capped 64 a.mapName) (capped 20 a.timestamp) = [] := by
+      simp [headerWarnings, weirdPadding_capped _ _ hz1, weirdPadding_capped _ _ hz2, weirdPadding_capped _ _ hz3]
+    match hs : a.sha with
+    | none =>
+      simp only [Option.isSome_none, Bool.false_eq_true, if_false, List.append_assoc, List.nil_append]
+      unfold readHeader
+      rw [readFixed_encode a hwf' _ hl1 hl2 hl3 hl4 hl5 writerVersion]
+      simp only []
+      rw [readMarkers_zero _ (by decide)]
+      simp only [readSha, writerVersion, reduceCtorEq, if_false]
+      rw [takeN_append a.map _ _ rfl]
+      simp [HeaderArgs.info, hs, hw, markerWarnings_zero, noMarkers_take, cstr_capped _ _ hl1 hz1, cstr_capped _ _ hl2 hz2,
+        cstr_capped _ _ hl3 hz3, writerVersion]
+    | some sh =>
+      have hshl := hsha sh hs
+      simp only [Option.isSome_some, if_true, List.append_assoc]
+      unfold readHeader
+      rw [readFixed_encode a hwf' _ hl1 hl2 hl3 hl4 hl5 writerVersionDdnet]
+      simp only []
+      rw [readMarkers_zero _ (by decide)]
+      simp only [readSha, writerVersionDdnet, if_true]
+      rw [takeN_append shaExtension _ 16 shaExtension_length]
+      simp only [ne_eq, not_true_eq_false, if_false]
+      rw [takeN_append sh _ 32 hshl]
+      simp only []
+      rw [takeN_append a.map _ _ rfl]
+      simp [HeaderArgs.info, hs, hw, markerWarnings_zero, noMarkers_take, cstr_capped _ _ hl1 hz1, cstr_capped _ _ hl2 hz2,
+        cstr_capped _ _ hl3 hz3, writerVersionDdnet]
+  · simp [hc] at henc
+
+/-! ### the whole file -/
+
+theorem info_version_ge5 (a : HeaderArgs) : a.info.version.num ≥ 5 := by
+  unfold HeaderArgs.info
+  cases a.sha <;> simp [writerVersion, writerVersionDdnet, Version.num]
+
+theorem readFile_written (hH : HuffmanRoundTrip) (a : HeaderArgs) (ha : a.wf) (cs : List Chunk)
+    (hcs : ∀ c ∈ cs, c.inRange) (w0 w : Writer) (hnew : Writer.new a = some w0)
+    (hw : w0.writeAll cs = (w, .ok)) :
+    readFile w.file = some (a.info, cs.map Chunk.padded, [], none) := by
+  unfold Writer.new at hnew
+  match henc : encodeHeader a, hnew with
+  | some hdr, hnew =>
+    simp only [Option.some.injEq] at hnew
+    subst hnew
+    obtain ⟨body, hf, hrd⟩ := writeAll_readAll hH cs _ w hcs hw
+    simp only at hf hrd
+    have hh := readHeader_encode a ha hdr body henc
+    unfold readFile Reader.new
+    rw [hf, hh]
+    simp only [Reader.readAll]
+    rw [hrd a.info.version (body.length + 1) (info_version_ge5 a) (Nat.le_refl _)]
+    simp
+
+/-! ### what the writer refuses -/
+
+theorem writeTick_refuses (w : Writer) (kf : Bool) (t p : Int) (hp : w.prevTick = some p) (h : t ≤ p) :
+    w.writeTick kf t = (w, .panic "TickMarker::new: tick > p") := by
+  have : ¬ t > p := by omega
+  simp [Writer.writeTick, TickMarker.new, hp, this]
+
+theorem writeTick_accepts (w : Writer) (kf : Bool) (t : Int) (h : ∀ p, w.prevTick = some p → p < t) :
+    ∃ hdr, w.writeTick kf t = ({ file := w.file ++ hdr, prevTick := some t }, .ok) := by
+  unfold Writer.writeTick TickMarker.new
+  match hp : w.prevTick with
+  | none => simp [ChunkHeader.write]
+  | some p =>
+    have hgt : t > p := h p hp
+    simp only [hgt, not_true_eq_false, if_false]
+    by_cases hd : inI32 (t - p) ∧ kf = false ∧ t - p ≤ (writerVersion.maxTickDelta : Int)
+    · simp only [hd, and_self, if_true]
+      obtain ⟨_, hkf, hle⟩ := hd
+      have hle' : (t - p).toNat ≤ writerVersion.maxTickDelta := by omega
+      simp [ChunkHeader.write, hle', hkf]
+    · simp only [hd, if_false, ChunkHeader.write]
+      exact ⟨_, rfl⟩
+
+theorem writeData_refusal_unchanged (w w' : Writer) (k : DataKind) (d : Bytes) (s : String)
+    (h : w.writeData k d = (w', .panic s)) : w' = w := by
+  unfold Writer.writeData at h
+  repeat' split at h
+  all_goals first | (cases h; rfl) | (simp at h)
+
+theorem writeChunk_refusal_unchanged (w w' : Writer) (c : Chunk) (s : String)
+    (h : w.writeChunk c = (w', .panic s)) : w' = w := by
+  match c, h with
+  | .tick t kf, h =>
+    simp only [Writer.writeChunk, Writer.writeTick] at h
+    repeat' split at h
+    all_goals first | (cases h; rfl) | (simp at h)
+  | .snapshot d, h => exact writeData_refusal_unchanged _ _ _ _ _ h
+  | .delta d, h => exact writeData_refusal_unchanged _ _ _ _ _ h
+  | .message d, h =>
+    simp only [Writer.writeChunk, Writer.writeMessage] at h
+    split at h
+    · cases h; rfl
+    · split at h
+      · cases h; rfl
+      · exact writeData_refusal_unchanged _ _ _ _ _ h
+  | .unknown, h => cases h; rfl
+
+theorem data_header_writes (k : DataKind) (n : Nat) : ∃ hdr, (ChunkHeader.data k n).write = some hdr := by
+  simp only [ChunkHeader.write]
+  repeat' split
+  all_goals exact ⟨_, rfl⟩
+
+theorem writeData_accepts_iff (w : Writer) (k : DataKind) (d : Bytes) :
+    (w.writeData k d).2 = .ok ↔
+      d.length ≤ MAX_SNAPSHOT_SIZE ∧ (Tw.Huffman.compress table false d).length ≤ 65535 := by
+  obtain ⟨hdr, hh⟩ := data_header_writes k (Tw.Huffman.compress table false d).length
+  unfold Writer.writeData Tw.Huffman.compressInto
+  by_cases h1 : d.length > MAX_SNAPSHOT_SIZE
+  · simp only [h1, if_true]
+    constructor
+    · intro h; cases h
+    · intro h; omega
+  · by_cases h2 : (Tw.Huffman.compress table false d).length ≤ MAX_SNAPSHOT_SIZE
+    · by_cases h3 : (Tw.Huffman.compress table false d).length > 65535
+      · simp only [h1, h2, h3, if_true, if_false]
+        constructor
+        · intro h; cases h
+        · intro h; omega
+      · simp only [h1, h2, h3, if_true, if_false, hh, true_iff]
+        omega
+    · simp only [h1, h2, if_false]
+      constructor
+      · intro h; cases h
+      · intro h; simp [MAX_SNAPSHOT_SIZE] at h2; omega
+
+theorem new_accepts_iff (a : HeaderArgs) :
+    (Writer.new a).isSome ↔ (a.netVersion.length < 64 ∧ a.mapName.length < 64 ∧ a.timestamp.length < 20
+        ∧ a.map.length < 2147483648 ∧ a.length ≥ 0) := by
+  unfold Writer.new encodeHeader
+  split <;> simp_all
+
 end Tw.Demo
